@@ -131,3 +131,26 @@ pub proof fn lemma_mr_merged_ok<T: AbstractDomain + SizedDomain + HasTop>(a: Map
         }
     }
 }
+
+/// merging a well-formed region with itself changes nothing (needs idempotence of the value merge)
+pub proof fn lemma_mr_merged_idem<T: AbstractDomain + SizedDomain + HasTop>(a: Map<i64, T>)
+    requires mr_merge_idem::<T>(), mr_cells_ok(a),
+    ensures mr_merged(a, a) =~= a,
+{
+    assert forall |k: i64| a.contains_key(k) implies #[trigger] mr_merge_keeps(a, a, k) && mr_merge_val(a, a, k) == a[k] by {
+        assert(a[k].merge_spec(&a[k]) == a[k]);
+    }
+    assert forall |k: i64| mr_merged(a, a).contains_key(k) implies a.contains_key(k) by {
+        assert(mr_merge_keeps(a, a, k));
+    }
+}
+
+/// the two's-complement reading of an offset of at most 64 bits fits i64
+pub proof fn lemma_mr_pos_range(p: Bitvector)
+    requires p.wf(), p.w@ <= 64
+    ensures i64::MIN <= p.s() <= i64::MAX
+{
+    lemma_sval(p.w@, p.u@);
+    lemma_p2_mono((p.w@ - 1) as nat, 63);
+    lemma_p2_consts();
+}
